@@ -37,12 +37,21 @@ def mask(bits):
 
 class Int:
     """integer / char / C-like enum value. t: python int in [0, 2^bits) or z3 BitVecRef."""
-    __slots__ = ('t', 'bits', 'sg', 'org')
+    __slots__ = ('t', 'bits', 'sg', 'org', 'rng')
 
-    def __init__(self, t, bits, sg=False, org=None):
+    def __init__(self, t, bits, sg=False, org=None, rng=None):
         if type(t) is int:
             t &= (1 << bits) - 1
         self.t = t; self.bits = bits; self.sg = sg; self.org = org
+        self.rng = rng      # optional conservative interval (lo, hi) of the value (signed view if sg)
+
+    def interval(self):
+        t = self.t
+        if type(t) is int:
+            if self.sg and t >= 1 << (self.bits - 1):
+                t -= 1 << self.bits
+            return (t, t)
+        return self.rng
 
     def is_conc(self):
         return type(self.t) is int
